@@ -49,33 +49,45 @@ pub struct Server {
 
 pub struct BasePath {
     base_path: String,
+    root: std::path::PathBuf,
 }
 
 impl BasePath {
+    // URIs are built from, and mapped back to, file system paths: percent-encoding
+    // (spaces, non-ASCII, `%`, `#`, `?`) is the business of `Url`, never of string
+    // surgery on the encoded text
+    fn path_to_url(&self, relative: &str) -> Url {
+        Url::from_file_path(self.root.join(relative))
+            .unwrap_or_else(|_| Url::parse(&self.base_path).unwrap().join(relative).expect("to work"))
+    }
+
     fn key_to_url(&self, key: &Key) -> Url {
-        Url::parse(&self.base_path)
-            .unwrap()
-            .join(&key.to_path())
-            .expect("to work")
+        self.path_to_url(&key.to_path())
     }
 
     fn relative_to_full_path(&self, url: &str) -> Url {
-        Url::parse(&self.base_path)
-            .unwrap()
-            .join(&format!("{}.md", url.trim_end_matches(".md")))
-            .expect("to work")
+        self.path_to_url(&format!("{}.md", url.trim_end_matches(".md")))
     }
 
     fn name_to_url(&self, key: &str) -> Url {
-        Url::parse(&format!("{}{}.md", self.base_path, key)).unwrap()
+        self.path_to_url(&format!("{}.md", key))
     }
 
     fn url_to_key(&self, url: &Url) -> Key {
-        Key::from_file_name(
-            &url.to_string()
-                .trim_start_matches(&self.base_path)
-                .to_string(),
-        )
+        url.to_file_path()
+            .ok()
+            .and_then(|path| {
+                path.strip_prefix(&self.root)
+                    .ok()
+                    .map(|relative| Key::from_file_name(&relative.to_string_lossy()))
+            })
+            .unwrap_or_else(|| {
+                Key::from_file_name(
+                    &url.to_string()
+                        .trim_start_matches(&self.base_path)
+                        .to_string(),
+                )
+            })
     }
 }
 
@@ -94,6 +106,7 @@ impl Server {
         Server {
             base_path: BasePath {
                 base_path: format!("file://{}/", config.base_path),
+                root: std::path::PathBuf::from(&config.base_path),
             },
             database: Database::new(
                 config.state,
@@ -253,7 +266,9 @@ impl Server {
             ))
         })
         .map(|url| {
-            let relative_url = RelativePath::new(&relative_to).join(url).to_string();
+            let relative_url = RelativePath::new(&relative_to)
+                .join_normalized(url)
+                .to_string();
             GotoDefinitionResponse::Scalar(Location::new(
                 self.base_path.relative_to_full_path(&relative_url),
                 Range::default(),
